@@ -54,6 +54,15 @@ def gen(rng):
         sc["event_groups"] = {"200": "G", "300": "G"}
     sc["listener_kwargs"] = rng.choice([{}, {}, {"inplay": True}, {"inplay": False}, {"seconds_to_start": 1}, {"seconds_to_start": 2},
                                         {"max_inplay_seconds": 1}, {"inplay": True, "max_inplay_seconds": 1}, {"inplay": False, "seconds_to_start": 1}])
+    # the off as the exchange reports it: the market is flagged in play while it is still SUSPENDED and re-opens in play afterwards
+    # (the update that turns it in play is then not an OPEN one); a generator of its own keeps the main stream as it was
+    fr = random.Random("flip|%r|%r" % (nm, sc["markets"][0]["updates"][0]["runners"]))
+    for m in sc["markets"]:
+        if fr.random() < 0.4:
+            for a, b in zip(m["updates"], m["updates"][1:]):
+                if b["inplay"] and not a["inplay"] and b["status"] == "OPEN":
+                    b["status"] = "SUSPENDED"
+                    break
     return sc
 
 
@@ -121,10 +130,31 @@ def directed_empty_stream():
     return sc
 
 
+def directed_inplay_flip_while_suspended(with_inplay_filter=False):
+    """max_inplay_seconds counts from the update that turns the market in play - also when that update is a SUSPENDED one (the off as
+    the exchange reports it) and the market re-opens in play afterwards: the in-play updates later than the limit are filtered out"""
+    import directed as d
+    T0 = d.T0
+    ups = [d.update(T0, d.two()), d.update(T0 + 500, d.two()),
+           d.update(T0 + 1000, d.two(atb=[], atl=[]), status="SUSPENDED", inplay=True, version=2),
+           d.update(T0 + 1400, d.two(), inplay=True, version=3), d.update(T0 + 1900, d.two(), inplay=True, version=3),
+           d.update(T0 + 2600, d.two(), inplay=True, version=3), d.update(T0 + 4000, d.two(), inplay=True, version=3),
+           d.update(T0 + 6000, d.two(), inplay=True, version=3)]
+    sc = d.scenario([d.market(101, ups)])
+    for m in sc["markets"]:
+        m["delta_updates"] = True
+        m["market_time"] = T0 + 1000
+    sc["listener_kwargs"] = {"inplay": True, "max_inplay_seconds": 1} if with_inplay_filter else {"max_inplay_seconds": 1}
+    return sc
+
+
+DIRECTED = [directed_empty_stream, directed_inplay_flip_while_suspended, lambda: directed_inplay_flip_while_suspended(True)]
+
+
 def _work(args):
     seed, idx = args
     rng = random.Random((seed * 7919 + idx) & 0xFFFFFFFF)
-    sc = directed_empty_stream() if idx == 0 else gen(rng)
+    sc = DIRECTED[idx]() if idx < len(DIRECTED) else gen(rng)
     a = child(sc, hashseed=rng.randint(1, 10**6), offset=0)
     b = child(sc, hashseed=rng.randint(1, 10**6), offset=rng.choice([3600.0, 86400.0 * 3, 12345.6]))
     last = max(u["pt"] for m in sc["markets"] for u in m["updates"])
